@@ -1,6 +1,7 @@
 import RasnModel.Spec.IntTy
 import RasnModel.Gen.IntType
 import RasnModel.Proofs.IntType
+import RasnModel.Props.C04
 /-
   C06 — the chosen Rust integer type can hold every permitted value.
   Property theorems only. `intTypeToken`, `integerConstraintsTail`, `maxRestrictive`,
@@ -192,5 +193,46 @@ theorem C06_paths_agree_on_simple (lo hi : Int) (h : lo ≤ hi)
 /-- non-vacuity: a boundary pair on each side -/
 example : intTypeToken (some 0) (some 256) false = "u16" ∧ assignmentToken [.range (some (-129)) (some 127) false] = "i16" := by
   decide
+
+/-! ### constraints with set operators: the component path is the PER-visible fold followed by `int_type_token` -/
+
+open Pv Spec.Subtype in
+/-- the token chosen for what the fold returns -/
+def foldedToken (r : Pv.Elem) : String :=
+  intTypeToken (Pv.elemPv false r).min (Pv.elemPv false r).max (Pv.elemPv false r).ext
+
+open Pv Spec.Subtype in
+theorem token_of_interval_sound (lo hi : Option Int) (ext : Bool) (v : Int) (h : (⟨lo, hi⟩ : Iv).mem v) :
+    holds (intTypeToken lo hi ext) v := by
+  cases lo with
+  | none => simp [intTypeToken, holds, tokenRange]
+  | some l =>
+    cases hi with
+    | none => simp [intTypeToken, holds, tokenRange]
+    | some u =>
+      simp only [Iv.mem, Iv.memB, lowerOk, upperOk, Bool.and_eq_true, decide_eq_true_eq] at h
+      exact C06_component_token_sound l u v ext h.1 h.2
+
+open Pv Spec.Subtype in
+/-- PARTIAL (C04's Dom: unions, then intersections, at most one EXCEPT, non-empty intersections): for a
+    subtype expression of any length on a component, the Rust integer type chosen from the folded
+    PER-visible bound can represent every value the expression permits. -/
+theorem C06_set_expression_sound_partial (c : Chain) (h : Props.C04.Dom c) (v : Int) (hv : denote (parse c) v) :
+    ∃ r, fold (nest c) = some r ∧ holds (foldedToken r) v := by
+  obtain ⟨r, hr, hm⟩ := Props.C04.C04_never_excludes_partial c h v hv
+  refine ⟨r, hr, ?_⟩
+  cases r with
+  | single x e => exact token_of_interval_sound (some x) (some x) e v hm
+  | range lo hi e => exact token_of_interval_sound lo hi e v hm
+
+open Pv Spec.Subtype in
+/-- … and it is a fixed-width type only if the folded bound is finite on both sides and not extensible -/
+theorem C06_set_expression_fixed_only_if (r : Pv.Elem) (h : foldedToken r ≠ "Integer") :
+    (Pv.elemPv false r).ext = false ∧ (Pv.elemPv false r).min.isSome ∧ (Pv.elemPv false r).max.isSome :=
+  C06_component_fixed_only_if _ _ _ h
+
+/- non-vacuity: `(250..300 | 0..10)` is in Dom, 300 is permitted, the token is u16 -/
+example : Props.C04.Dom ⟨.range (some 250) (some 300) false, [(.union, .range (some 0) (some 10) false)]⟩ := by decide
+example : (Pv.fold (Pv.nest ⟨.range (some 250) (some 300) false, [(.union, .range (some 0) (some 10) false)]⟩)).map foldedToken = some "u16" := by decide
 
 end Props.C06
